@@ -10,7 +10,7 @@ import pathlib
 import shutil
 import sys
 
-from common import (cbool, clist, new_dir, pack, run_packed_cases, ser_bool, ser_list, ser_n, ser_opt,
+from common import (HARNESS_FAULT, raised_in_harness, cbool, clist, new_dir, pack, run_packed_cases, ser_bool, ser_list, ser_n, ser_opt,
                     setup_impl_path)
 
 KINDS = ["command", "experiment", "combine", "group"]
@@ -498,7 +498,11 @@ def run_impl(case, keep_root=False, inject=None):
                 except errors.ConductorError as e:
                     obs.raised = type(e).__name__
                 obs.final_states = {tk(op): op.state.name for op in plan.all_ops}
-                obs.completed = [tk(op) for op in ex._completed_ops]  # pylint: disable=protected-access
+                if hasattr(ex, "_completed_ops"):
+                    obs.completed = [tk(op) for op in ex._completed_ops]  # pylint: disable=protected-access
+                else:
+                    # the private list was renamed: an operation is completed when it is given its final state
+                    obs.completed = [rec[1] for rec in trace if rec[0] == "state" and rec[2] in ("SUCCEEDED", "FAILED", "SKIPPED")]
             try:
                 ctx.tee_processor.shutdown()
             except Exception:  # pylint: disable=broad-except
@@ -511,7 +515,7 @@ def run_impl(case, keep_root=False, inject=None):
     except BaseException as e:  # pylint: disable=broad-except
         import traceback
 
-        obs.crash = "%s: %s\n%s" % (type(e).__name__, e, traceback.format_exc()[-1500:])
+        obs.crash = "%s%s: %s\n%s" % (HARNESS_FAULT + " " if raised_in_harness(e) else "", type(e).__name__, e, traceback.format_exc()[-1500:])
     finally:
         _signal.alarm(0)
         _signal.signal(_signal.SIGALRM, old_alarm)
@@ -538,9 +542,18 @@ def run_impl(case, keep_root=False, inject=None):
     text = strip_ansi(obs.stdout)
     obs.text = text
     events = []
+    # a cached task is announced by a line that names it (a cached task is neither started, skipped nor reported as
+    # failed, so it is named nowhere else); the wording of the announcement is not relied on
+    import re as _re0
+
+    plan_cached = set((obs.plan or {}).get("cached", []))
+    announced = set()
     for line in text.splitlines():
-        if "Using cached results for" in line:
-            events.append(("cached", int(line.rsplit(":t", 1)[1].rstrip("."))))
+        for mt in _re0.finditer(r":t(\d+)\b", line):
+            t = int(mt.group(1))
+            if t in plan_cached and t not in announced:
+                announced.add(t)
+                events.append(("cached", t))
     n_cached = len(events)
     for rec in trace:
         if rec[0] == "start":
